@@ -335,7 +335,7 @@ pub fn report(out: &mut Out, prop: &str) {
     match prop {
         "C12" => require_cells(out, prop, &[
             "x:case:step-functions", "x:case:write-buffer", "x:case:workers:interval-never", "x:case:workers:interval-zero",
-            "x:case:workers:mailbox-capacity-crossed", "x:case:workers:start-fails-on-manifest-load-error", "x:case:workers:with-compaction-worker",
+            "x:case:workers:mailbox-capacity-crossed", "x:case:workers:start-fails-on-manifest-load-error", "x:case:workers:with-compaction-worker", "x:case:workers:slow-store",
             "x:case:legacy:persistence-worker", "j:case:variants", "j:case:flips:generated", "j:case:flips:typical", "x:case:prefix", "x:case:lives:2", "x:lives:end:death-at-call", "x:lives:end:clean-shutdown", "x:lives:compaction-pass", "x:case:legacy:flush-worker", "x:case:legacy:delta-sink-worker",
             "x:push:backpressure", "x:push:aimed-at-byte-threshold", "x:advance:aimed-at-interval", "x:flush:err", "x:should_flush:true", "x:should_flush:false",
             "x:actor:last-batch-drained-at-shutdown", "x:capacity:batches-dropped-by-full-mailbox",
